@@ -182,6 +182,9 @@ func reasmSpec(id string, which reasm.Which, snapshot bool, rule string, assumpt
 			}
 			c.Add("jump_histories", jumps)
 		}
+		if id == "C02" {
+			c02PanicHistories(c)
+		}
 		for _, k := range []string{"histories_with_overflow_eviction", "histories_with_duplicate_sequence", "histories_with_late_arrival",
 			"histories_straddling_rollover", "histories_with_orphan_eoe", "histories_with_gap", "deliveries_observed"} {
 			c.Require(k, 1)
@@ -198,6 +201,12 @@ func reasmSpec(id string, which reasm.Which, snapshot bool, rule string, assumpt
 		Phases: plainPhase("histories"),
 		Run:    run,
 		Replay: func(c *mon.Ctx, kase json.RawMessage) {
+			var pk c02pCase
+			if json.Unmarshal(kase, &pk) == nil && pk.Kind == "panicking-stream" {
+				fmt.Println("replay: panicking-stream history:", pk.String())
+				c02PanicOne(c, &pk)
+				return
+			}
 			var h reasm.History
 			if err := json.Unmarshal(kase, &h); err != nil {
 				fmt.Println("replay: bad case:", err)
@@ -228,7 +237,7 @@ var reasmAssumptions = []string{
 
 func init() {
 	register(reasmSpec("C01", reasm.Which{C01: true}, false, reasmRule, reasmAssumptions))
-	register(reasmSpec("C02", reasm.Which{C02: true}, false, reasmRule, reasmAssumptions))
+	register(reasmSpec("C02", reasm.Which{C02: true}, false, reasmRule+" C02 also runs histories with a FAILING Stream (its ReassemblyComplete panics at chosen callbacks, the caller recovers and carries on): 480 enumerated ones (1-5 complete events evicted in one batch with the head they waited for, the panic at each position of the batch, four kinds of follow-up) and 6 000 / 600 000 random ones; the order of everything that is handed to the Stream before, at and after the panic is judged by the statement's rule (what happens to the rest of the interrupted batch is not asserted).", reasmAssumptions))
 	register(reasmSpec("C03", reasm.Which{C03: true}, false, reasmRule+" The loss oracle is evaluated after every call, not only at Close.", reasmAssumptions))
 	register(reasmSpec("C10", reasm.Which{C10: true}, true, reasmRule+" After every call the VerifSnapshot hook (taken under the list's own mutex) is cross-checked against the buffer reconstructed at the boundary.", reasmAssumptions))
 }
